@@ -221,6 +221,15 @@ fn write_major(major: u8, n: u128, out: &mut Vec<u8>) {
 /// overflow the stack. 128 matches `echo-edict-canonical`'s published nesting bound.
 pub const MAX_NESTING_DEPTH: usize = 128;
 
+/// Upper bound on the element slots reserved up front for one container head.
+///
+/// A declared length never exceeds the remaining input, but that bound holds per nesting
+/// level: up to [`MAX_NESTING_DEPTH`] nested heads can each declare "everything that is
+/// left", and reserving all of it at every level costs depth x input slots before a single
+/// element has been decoded. Past this many slots a container grows as its elements are
+/// actually decoded, which keeps the allocation proportional to the bytes consumed.
+const MAX_PREALLOCATED_SLOTS: usize = 64;
+
 fn dec_value(bytes: &[u8], idx: &mut usize, depth: usize) -> Result<Value> {
     fn need(bytes: &[u8], idx: usize, n: usize) -> Result<()> {
         if bytes.len().saturating_sub(idx) < n {
@@ -331,7 +340,7 @@ fn dec_value(bytes: &[u8], idx: &mut usize, depth: usize) -> Result<Value> {
                 .ok()
                 .filter(|len| *len <= remaining)
                 .ok_or(CanonError::Incomplete)?;
-            let mut items = Vec::with_capacity(len);
+            let mut items = Vec::with_capacity(len.min(MAX_PREALLOCATED_SLOTS));
             for _ in 0..len {
                 items.push(dec_value(bytes, idx, depth + 1)?);
             }
@@ -348,7 +357,7 @@ fn dec_value(bytes: &[u8], idx: &mut usize, depth: usize) -> Result<Value> {
                 .ok()
                 .filter(|len| *len <= remaining / 2)
                 .ok_or(CanonError::Incomplete)?;
-            let mut entries = Vec::with_capacity(len);
+            let mut entries = Vec::with_capacity(len.min(MAX_PREALLOCATED_SLOTS));
             let mut last_key: Option<Vec<u8>> = None;
             for _ in 0..len {
                 let key_start = *idx;
